@@ -1,8 +1,11 @@
 //! Build-time source ports (no repository change):
 //!  * engine_neon.rs        -> Neon engine over emulated intrinsics (`NeonEmu`)
 //!  * engine_default.rs     -> the AArch64 arm of `DefaultEngine` over `NeonEmu` (C14)
-//! The substitutions are purely textual; if an expected anchor is missing the build fails
-//! loudly (machinery error), it never silently checks something else.
+//! The substitutions are purely textual. If an expected anchor is missing (the file was restructured) or
+//! VERIF_NO_NEON_PORT=1 is set (the driver sets it after the ported source failed to compile), the
+//! port is left out and the cfg `no_neon_port` / `no_aarch64_port` is set: the explorers then run without
+//! the emulated Neon engine / the AArch64 selection arm and say so in every evidence file - the other
+//! engines are still decided. It never silently checks something else.
 use std::{env, fs, path::PathBuf};
 
 fn main() {
@@ -12,26 +15,42 @@ fn main() {
     println!("cargo:rerun-if-changed={repo}/src/engine/engine_neon.rs");
     println!("cargo:rerun-if-changed={repo}/src/engine/engine_default.rs");
 
+    println!("cargo:rerun-if-env-changed=VERIF_NO_NEON_PORT");
+    println!("cargo::rustc-check-cfg=cfg(no_neon_port)");
+    println!("cargo::rustc-check-cfg=cfg(no_aarch64_port)");
+    let forced_off = env::var("VERIF_NO_NEON_PORT").map(|v| v == "1").unwrap_or(false);
+    let missing = |s: &str, pats: &[&str]| -> Option<String> { pats.iter().find(|p| !s.contains(**p)).map(|p| p.to_string()) };
+
     // ---- Neon
-    let src = fs::read_to_string(format!("{repo}/src/engine/engine_neon.rs")).expect("engine_neon.rs");
+    let src = fs::read_to_string(format!("{repo}/src/engine/engine_neon.rs")).unwrap_or_default();
     let mut s = src.clone();
-    let must = |s: &str, pat: &str| assert!(s.contains(pat), "port anchor missing: {pat}");
-    must(&s, "use crate::engine::{");
-    must(&s, "use std::arch::aarch64::*;");
-    must(&s, "#[target_feature(enable = \"neon\")]");
+    let neon_problem = if forced_off {
+        Some("VERIF_NO_NEON_PORT=1 (the ported source did not compile against the emulated intrinsics)".to_string())
+    } else {
+        missing(&s, &["use crate::engine::{", "use std::arch::aarch64::*;", "#[target_feature(enable = \"neon\")]"]).map(|p| format!("port anchor missing in engine_neon.rs: {p}"))
+    };
     s = s.replace("use crate::engine::", "use reed_solomon_simd::engine::");
     s = s.replace("crate::engine::", "reed_solomon_simd::engine::");
     s = s.replace("crate::verif_hooks::", "reed_solomon_simd::verif_hooks::");
     s = s.replace("use std::arch::aarch64::*;", "use crate::neon_emu::*;");
     s = s.replace("#[target_feature(enable = \"neon\")]", "");
-    assert!(!s.contains("std::arch"), "unported std::arch use in engine_neon.rs");
-    fs::write(out.join("engine_neon_port.rs"), s).unwrap();
+    let neon_problem = neon_problem.or_else(|| if s.contains("std::arch") { Some("unported std::arch use in engine_neon.rs".to_string()) } else { None });
+    if let Some(p) = &neon_problem {
+        println!("cargo:rustc-cfg=no_neon_port");
+        println!("cargo:rustc-env=VERIF_NEON_PORT_NOTE={p}");
+        println!("cargo:warning=Neon emulation port left out: {p}");
+        fs::write(out.join("engine_neon_port.rs"), "").unwrap();
+    } else {
+        println!("cargo:rustc-env=VERIF_NEON_PORT_NOTE=");
+        fs::write(out.join("engine_neon_port.rs"), s).unwrap();
+    }
 
     // ---- DefaultEngine, aarch64 arm
-    let src = fs::read_to_string(format!("{repo}/src/engine/engine_default.rs")).expect("engine_default.rs");
+    let src = fs::read_to_string(format!("{repo}/src/engine/engine_default.rs")).unwrap_or_default();
     let mut s = src.clone();
-    must(&s, "#[cfg(target_arch = \"aarch64\")]");
-    must(&s, "std::arch::is_aarch64_feature_detected!(\"neon\")");
+    println!("cargo:rerun-if-env-changed=VERIF_NO_AARCH64_PORT");
+    let a_forced = env::var("VERIF_NO_AARCH64_PORT").map(|v| v == "1").unwrap_or(false);
+    let a_problem = neon_problem.clone().or_else(|| if a_forced { Some("VERIF_NO_AARCH64_PORT=1 (the ported source did not compile)".to_string()) } else { None }).or_else(|| missing(&s, &["#[cfg(target_arch = \"aarch64\")]", "std::arch::is_aarch64_feature_detected!(\"neon\")"]).map(|p| format!("port anchor missing in engine_default.rs: {p}")));
     // switch arms: x86 off, aarch64 on
     s = s.replace("any(target_arch = \"x86\", target_arch = \"x86_64\")", "any()");
     s = s.replace("#[cfg(target_arch = \"aarch64\")]", "#[cfg(all())]");
@@ -43,6 +62,14 @@ fn main() {
     s = s.replace("use crate::engine::{", "use reed_solomon_simd::engine::{");
     s = s.replace("crate::engine::", "reed_solomon_simd::engine::");
     s = s.replace("crate::verif_hooks::", "reed_solomon_simd::verif_hooks::");
-    assert!(!s.contains("std::arch"), "unported std::arch use in engine_default.rs");
-    fs::write(out.join("engine_default_aarch64_port.rs"), s).unwrap();
+    let a_problem = a_problem.or_else(|| if s.contains("std::arch") { Some("unported std::arch use in engine_default.rs".to_string()) } else { None });
+    if let Some(p) = &a_problem {
+        println!("cargo:rustc-cfg=no_aarch64_port");
+        println!("cargo:rustc-env=VERIF_AARCH64_PORT_NOTE={p}");
+        println!("cargo:warning=AArch64 arm of DefaultEngine left out: {p}");
+        fs::write(out.join("engine_default_aarch64_port.rs"), "").unwrap();
+    } else {
+        println!("cargo:rustc-env=VERIF_AARCH64_PORT_NOTE=");
+        fs::write(out.join("engine_default_aarch64_port.rs"), s).unwrap();
+    }
 }
